@@ -105,8 +105,13 @@ CmpObs ==
      THEN Fail(Plain("cmp: observation does not belong to the current case (or no Equal observation precedes it)", Ev.form)) /\ UNCHANGED cmpm
      ELSE LET m == Ev.m
               tr == CmpTransBad(m, N)
-              curbad == IF Ev.form = "cur" /\ cmpm # <<>> THEN {p \in N \X N : m[p[1]][p[2]] # cmpm[p[1]][p[2]]} ELSE {} IN
-          /\ Fail(Classes("Compare panicked or returned a value other than -1, 0, +1", Ev.form, CmpRangeBad(m, N))
+              curbad == IF Ev.form = "cur" /\ cmpm # <<>> THEN {p \in N \X N : m[p[1]][p[2]] # cmpm[p[1]][p[2]]} ELSE {}
+              \* not a verdict: where today's template (implementation-shaped layer) would have answered differently
+              drift  == IF Ev.form = "bin"
+                        THEN {p \in N \X N : m[p[1]][p[2]] \in {-1, 0, 1} /\ m[p[1]][p[2]] # CmpImpl(NoEnv, T, X(p[1]), X(p[2]), "top")}
+                        ELSE {} IN
+          /\ Fail(Classes("DRIFT: Compare differs from the implementation-shaped model (not a verdict)", Ev.form, drift)
+                  \cup Classes("Compare panicked or returned a value other than -1, 0, +1", Ev.form, CmpRangeBad(m, N))
                   \cup Classes("Compare is not antisymmetric", Ev.form, CmpAntiSymBad(m, N))
                   \cup Classes("Compare is not transitive", Ev.form, {<<t[1], t[3]>> : t \in tr})
                   \cup Classes("Compare returns 0 although derived Equal is false, or non-zero although it is true", Ev.form, CmpZeroIffBad(m, eqm, N))
